@@ -22,9 +22,6 @@ def patch_function(owner, name, old, new, count=1):
     src = textwrap.dedent(inspect.getsource(fn))
     if wrapper is property:
         src = "\n".join(ln for ln in src.split("\n") if ln.strip() != "@property")
-    if isinstance(owner, type):
-        # zero-argument super() needs the class cell, which a re-compiled function lacks
-        src = src.replace("super()", "super(%s, self)" % owner.__name__)
     if "\n" in old:
         # multi-line anchor: match consecutive lines by stripped content, re-indent the
         # replacement lines with the indentation of the first matched line
@@ -58,6 +55,9 @@ def patch_function(owner, name, old, new, count=1):
         if not re.search(pat, src):
             raise RuntimeError("mutant anchor not found in %s.%s: %r" % (owner, name, old))
         src2 = re.sub(pat, lambda m: new, src, count=count)
+    if isinstance(owner, type):
+        # zero-argument super() needs the class cell, which a re-compiled function lacks
+        src2 = src2.replace("super()", "super(%s, self)" % owner.__name__)
     modname = owner.__module__ if isinstance(owner, type) else owner.__name__
     g = sys.modules[modname].__dict__
     ns = {}
